@@ -379,6 +379,12 @@ def rule_limits_of_ranges(ctx):
 
     ctx.res.minimum("O1.5", 1)
     constructor_table(ctx, "O1.5", RANGE, 5)
+    # O19.8: "the total digits and fractional digits implied by the rule": DecimalRange derives them from every number of
+    # every item (the item with the most digits before the point need not be the last one)
+    from .c01 import DECIMAL_RANGE
+
+    ctx.res.minimum("O19.8", 1)
+    constructor_table(ctx, "O19.8", DECIMAL_RANGE, 5, digits=True)
 
 
 from .common import rule_module_state  # noqa: E402
